@@ -25,7 +25,7 @@ import vlib
 
 THEOREMS = ["Yardl.C06.verdict_total", "Yardl.C06.primitive_change_table", "Yardl.C06.primitive_change_table_complete",
             "Yardl.C06.primitive_change_classes", "Yardl.C06.primitive_change_error_symmetric", "Yardl.C06.wrappers_preserve_errors",
-            "Yardl.C06.compare_reflexive_partial"]
+            "Yardl.C06.compare_reflexive", "Yardl.C06.well_formedness_is_needed", "Yardl.C06.identical_versions_are_silent"]
 
 SEV = {"ok": 0, "warn": 1, "err": 2}
 
@@ -100,6 +100,7 @@ def run(report, tier, seed):
         inproc = vlib.build_go_harness(sc, "inproc")
         lean = vlib.LeanDriver("wiredrv")
         directed(report, sc, inproc)
+        multi_instance(report, sc, inproc, lean)
         structural(report, sc, ybin, inproc, lean, seed, 150 if quick else 3000)
         rewrites(report, sc, ybin, inproc, seed, 4 if quick else 40)
         lean.close()
@@ -158,9 +159,75 @@ def directed(report, sc, inproc):
             report.violation(f"documented-class:{base}:expected-{want}-got-{verdict}{suffix}", replay, "a documented example / class did not get the documented verdict")
 
 
+def multi_instance(report, sc, inproc, lean):
+    """several instantiations of one generic record reached from one protocol (one step, several steps, a holder record), with a
+    documented change in a definition that only one instantiation's type argument reaches: the verdict must be the model's
+    (directed; every arrangement x every edit on every tier)"""
+    def base(arrangement, first):
+        v = evogen.Version()
+        v.defs["Pos"] = ["rec", [["x", ["prim", "float32"]], ["y", ["prim", "float32"]]], "Pos"]
+        v.defs["Kind"] = ["enum", None, False, [["a", 0], ["b", 1]], "Kind"]
+        v.order += ["Pos", "Kind"]
+        v.generics["Sample"] = ["T", [["timestamp", ["prim", "uint64"]], ["value", ["tparam", "T"]]]]
+        args = [["prim", "float32"], ["ref", "Pos"], ["ref", "Kind"]]
+        if first:
+            args = [args[1], args[2], args[0]]
+        insts = [evogen.instantiate(v, "Sample", a) for a in args]
+        if arrangement == "union-stream":
+            v.steps.append(["items", ["union", False, [[f"c{i}", ["ref", n]] for i, n in enumerate(insts)]], True])
+        elif arrangement == "separate-steps":
+            for i, n in enumerate(insts):
+                v.steps.append([f"s{i}", ["ref", n], i % 2 == 0])
+        elif arrangement == "holder-record":
+            v.defs["Holder"] = ["rec", [[f"h{i}", ["ref", n]] for i, n in enumerate(insts)], "Holder"]
+            v.order.append("Holder")
+            v.steps.append(["holder", ["ref", "Holder"], False])
+        else:
+            v.steps.append(["many", ["vec", ["ref", insts[0]], None], False])
+            v.steps.append(["maybe", ["opt", ["ref", insts[1]]], False])
+            v.steps.append(["more", ["ref", insts[2]], True])
+        return v
+
+    def e_vec(v): v.defs["Pos"][1][0][1] = ["vec", ["prim", "float32"], None]
+    def e_double(v): v.defs["Pos"][1][0][1] = ["prim", "float64"]
+    def e_bool(v): v.defs["Pos"][1][0][1] = ["prim", "bool"]
+    def e_add_req(v): v.defs["Pos"][1].append(["z", ["prim", "float32"]])
+    def e_add_opt(v): v.defs["Pos"][1].append(["z", ["opt", ["prim", "float32"]]])
+    def e_remove(v): del v.defs["Pos"][1][1]
+    def e_swap(v): v.defs["Pos"][1].reverse()
+    def e_enum_value(v): v.defs["Kind"][3][1][1] = 5
+    def e_enum_add(v): v.defs["Kind"][3].append(["c", 2])
+    def e_enum_base(v): v.defs["Kind"][1] = "uint8"
+    edits = [("field-to-vector", e_vec), ("field-float-to-double", e_double), ("field-float-to-bool", e_bool), ("field-add-required", e_add_req), ("field-add-optional", e_add_opt),
+             ("field-remove", e_remove), ("field-swap", e_swap), ("enum-change-value", e_enum_value), ("enum-add-value", e_enum_add), ("enum-base", e_enum_base), ("identity", lambda v: None)]
+    for arrangement in ("union-stream", "separate-steps", "holder-record", "wrapped-steps"):
+        for first in (False, True):
+            for ename, ed in edits:
+                old = base(arrangement, first)
+                new = old.copy()
+                ed(new)
+                evogen.reinstantiate(new)
+                name = f"mi-{arrangement}-{int(first)}-{ename}"
+                root = sc.path(name)
+                od = write_version(root, "old", old)
+                nd = write_version(root, "new", new, versions=[("v0", "../old")])
+                verdict, res = real_verdict(inproc, nd)
+                report.case(distinct_key=("multi-instance", arrangement, first, ename))
+                report.count("multi-instance")
+                m = lean.ask({"op": "evo_proto", "new": evogen.proto_json(new), "old": evogen.proto_json(old),
+                              "new_defs": evogen.defs_json(new)})
+                replay = {"directed": name, "files": files_of(od, nd), "model": m, "tool_verdict": verdict,
+                          "tool": {k2: res[k2] for k2 in res if k2 in ("evolutionError", "evolutionWarnings", "panic", "validateError", "parseError", "versionError")}}
+                if verdict in ("panic", "crash", "invalid"):
+                    report.violation(f"multi-instance:{verdict}:{ename}", replay, "comparing two individually valid versions failed")
+                elif m.get("verdict") != verdict:
+                    report.violation(f"multi-instance:verdict-differs:{ename}:{arrangement}", dict(replay, theorem_or_correspondence="Evo.protoVerdict vs ValidateEvolution"),
+                                     "a change reached only through one of several instantiations of a generic did not get the verdict of the same change reached directly")
+
+
 def structural(report, sc, ybin, inproc, lean, seed, n):
     r = random.Random(seed * 9176 + 6)
-    g = evogen.EvoGen(r, cpp_safe=False)
+    g = evogen.EvoGen(r, cpp_safe=False, generics=True)
     for i in range(n):
         old = g.gen_version()
         k = r.choice([0, 1, 1, 1, 1, 2, 2, 3]) if i % 10 else 0
@@ -200,9 +267,13 @@ def structural(report, sc, ybin, inproc, lean, seed, n):
             if (rc != 0) != (verdict == "err") or "panic" in err or "goroutine" in err:
                 report.violation("tool:cli-verdict-differs-from-library", dict(replay, rc=rc, stderr=err[-1500:]), "")
         m = lean.ask({"op": "evo_proto", "new": evogen.proto_json(new), "old": evogen.proto_json(old),
-                      "new_defs": [evogen.inline(new, ["ref", nm]) for nm in new.order]})
+                      "new_defs": evogen.defs_json(new)})
         if "verdict" not in m:
             report.violation("model:evo-error", dict(replay, model=m), "no-failing-input-found")
+            continue
+        report.count("hypothesis.wfSteps." + ("holds" if m.get("wf_new") and m.get("wf_old") else "fails"))
+        if k == 0 and m.get("wf_new") and m["verdict"] != "ok":
+            report.violation("model:identical-versions-not-silent", dict(replay, model=m, theorem_or_correspondence="Yardl.C06.identical_versions_are_silent"), "no-failing-input-found")
             continue
         if k == 0 and verdict != "ok":
             report.violation("reflexivity:version-not-compatible-with-itself", replay, "a model compared with an identical previous version gives errors or warnings")
